@@ -224,7 +224,8 @@ CLAIMED["C30"] = dict(
          "value stored at a grid point is the mean of exactly the rows evaluated at that point. TABresult.find_grid exhaustively for all "
          "complete grids with 1-6 points per direction. get_component for symbolic tensors of rank 0-3: every 'xyz' string (both cases), "
          "every index tuple, 'trace', 'norm', 'sq' equal the algebraic operation; non-existing letters / wrong types raise. Per shape, for "
-         "all real values. That the values at a grid point are those 'obtained by evaluating that point alone' rests on the per-k "
+         "all real values. TabulatorAll (assembled from the extracted text): every K-point yields one TABresult holding a copy of ITS kpoints_all and every tabulator evaluated on THAT Data_K, Energy always included, band selection handed down, conflicting selections refused; TABresult.get_data in grid (C order) and path mode, self_to_grid, get_component_list. Unbounded z3 lemma: the slot formula k2 + g2 (k1 + g1 k0) is a bijection onto [0, g0 g1 g2) for ALL grid sizes. "
+         "That the values at a grid point are those 'obtained by evaluating that point alone' rests on the per-k "
          "independence of the Fourier back ends (C02/C03). Observation (not part of the property): an index string longer than "
          "the tensor rank silently indexes the k axis instead of raising.",
     note=TB + "; np.linalg.norm = sqrt of the sum of squares; on-grid test tolerance 1e-5 as coded")
@@ -234,7 +235,7 @@ CLAIMED["C22"] = dict(
          "and b-vectors incl. long and negative ones: k + b = k_neighbour + G*N for every pair; incomplete meshes raise. "
          "BKVectors.get_shell_weights (real text, real numpy, SYMBOLIC shell vectors, arbitrary shell weights through a symbolic SVD "
          "factor): on every path that returns arrays the flattened b-vectors and weights satisfy || sum_b w_b b_i b_j - delta_ij || <= "
-         "bk_complete_tol -- the completeness relation is a proved consequence of the guard for whatever the SVD produced; weights constant "
+         "bk_complete_tol -- proved in three cheap steps (flattening exact entry by entry; the contract's sum of squares is the polynomial whose norm the code tested; norm <= tol gives the bound) so that the completeness relation is a consequence of the guard for whatever the SVD produced; weights constant "
          "per shell, shells whole and in order, lattice/Cartesian vectors paired (two shells of 2 and 4 vectors). k_to_shells on concrete "
          "vector sets. Closure under b -> -b with equal weights and 'whole shells of mesh vectors' are geometric and carried by a bounded "
          "stand-in only: find_bk_vectors on 4 (quick) / 9 (thorough) lattices covering the crystal systems and 2-3 meshes.",
@@ -274,7 +275,7 @@ CLAIMED["C01"] = dict(
          "shifted by lattice vectors, centres on sites, bond centres, outside the home cell, coinciding; tolerances 1e-5..1e-2; scalar and "
          "vector valued) and SYMBOLIC Hermitian matrices per mesh point: proved for all data that interpolating back gives the input at every "
          "mesh point, that X(-R) = X(R)^dagger with every R paired, that the replica weights of every mesh vector and pair add to 1 (so to "
-         "N1 N2 N3 per pair), and that Rvectors.remap_XX_R (do_ws_dist) preserves the matrices at the mesh points. WignerSeitz.__call__ "
+         "N1 N2 N3 per pair), that Rvectors.remap_XX_R preserves the matrices at the mesh points, and that System_R.do_ws_dist (with exclude_zeros; symbolic entries read as generic non-zero values) keeps every matrix of a system with different non-zero patterns (hoppings, on-site spin, two-vector position matrix) on one common R list. Known finding K1 (recorded, not repaired): Hermiticity fails for one strongly skewed non-reduced cell whose nearest replicas reach the edge of the +-3 super-cell search box. WignerSeitz.__call__ "
          "for EVERY table of distances (symbolic reals, 2 mesh points x 3 replicas): >= 1 entry per mesh point, multiplicities, iRvec mod N. "
          "Mesh sizes other than 1, 2, 4 need cyclotomic arithmetic the engine lacks: covered only by the bounded stand-in (installed code, "
          "random lattices, meshes 1..5, both FFT libraries).",
